@@ -5,7 +5,7 @@ ENGINES = [
     {"name": "explorer", "path": "harness/explorer.py", "kind_free_text": "stateless DFS explicit-state model checker over the real engine on a simulated broker (replay + fingerprint dedup + deviation bound)",
      "serves_properties": ["C02", "C03", "C05", "C06", "C08", "C09", "C11"]},
     {"name": "enumerator", "path": "checks/common.py", "kind_free_text": "exhaustive small-scope enumeration of inputs/programs from a stated finite alphabet, each evaluated on the real code and on a reference model under /verif/ref",
-     "serves_properties": ["C01", "C08", "C12", "C14"]},
+     "serves_properties": ["C01", "C07", "C08", "C12", "C14"]},
 ]
 CHECKS = {
     "C03": {
@@ -67,5 +67,13 @@ CHECKS["C09"] = _mc("M-hist evaluated on the complete history after every step o
     "previousEventId, timestamps, ExecutionStarted, exactly one terminal event that agrees with the record and is last, entered/exited pairing and order along the transitions taken, EXPRESS stores nothing.")
 CHECKS["C11"] = _mc("M-views evaluated after every step of every interleaving of the same families: record vs last notification vs history terminal event, each status published once to '<stateMachineArn>.<status>' "
     "in the CloudWatch shape with integer-millisecond dates while the stored record keeps epoch seconds.")
+CHECKS["C07"] = {
+    "engine": "enumerator",
+    "text": "All retrier lists / catcher lists / task outcome sequences within the tier's bounds (see evidence rule), each run through the real engine on the virtual clock (canonical schedule) "
+            "and through ref/asl.py; compared: the instants of every RPC request of the retried task and of the successor / catch-target task (exact), terminal status, output and instant. "
+            "Known defects matched only through exact defect models (e.g. the shared-RetryCount model).",
+    "note": ENUM + " " + SIM,
+    "technique": "exhaustive small-scope enumeration of policies x fault sequences against a reference interpreter, on a virtual clock (bounded model checking, explicit enumeration)",
+}
 NA = {}
 NOTES = "All checks run the real code of /repo's working tree (imported by path) over /verif/sim; see DESIGN.md."
